@@ -274,10 +274,13 @@ impl Property for C11 {
                 let _ = e;
             }
             Ok(mb) => {
-                if mb.metadata != meta {
+                // (a parser that alters what it reads re-encodes other bytes than the reference signer signed)
+                let altered = mb.metadata != meta;
+                if altered {
                     o.class("reparsed-metadata-differs");
-                } else if let Err(e) = mb.verify(1, [&pk]) {
-                    o.fail("C11/verify/reference-signature-rejected",
+                }
+                if let Err(e) = mb.verify(1, [&pk]) {
+                    o.fail(if altered { "C11/verify/reference-signature-rejected/parsed-metadata-differs-from-document" } else { "C11/verify/reference-signature-rejected" },
                         format!("signature over reference bytes {:?} rejected: {}", String::from_utf8_lossy(&reference), e),
                         "accepted (reference implementation signs OLPC canonical JSON)");
                 }
